@@ -10,19 +10,63 @@ def main():
     importlib.import_module(mod)
     c = REGISTRY.get(qual)
     ex = Executor()
+    import os
+    if os.environ.get('GIVC_TRACE'): ex.trace_branches = []
     t0=time.time()
     obs = ex.verify(c)
     print('generated', len(obs), 'obligations in %.2fs'%(time.time()-t0))
     for r in solve.discharge(ex):
         print('%-50s %-8s %-8s %.3fs %s' % (r.name, r.status, r.backend, r.seconds, r.reason))
         if r.status=='sat' and r.model is not None:
-            for n,v in ex.inputs.items():
-                val = r.model.eval(v.t, model_completion=True)
-                print('    ', n, '=', val)
-                if val.decl().name()=='R':
-                    for f, arr in sorted(ex.h0.items()):
-                        if not f.startswith('$'):
-                            print('         .%s = %s' % (f, r.model.eval(arr[val.arg(0)], model_completion=True)))
-    print(solve.vacuity(ex))
+            from givc.replay import Builder
+            b=Builder(ex, r.model)
+            params={n:b.desc(v.t) for n,v in ex.inputs.items()}
+            print('     params', params)
+            for k,o in b.objs.items():
+                if o.get('global'): print('      ',k,'=',o['global']); continue
+                fl={f:v for f,v in (o.get('fields') or {}).items() if v not in (['none'],['bool',False])}
+                print('      ',k,o.get('cls'),fl, o.get('items') or '', o.get('dict') or '')
+            if hasattr(ex,'result') and hasattr(ex.result,'t'): print('     result', b.desc(ex.result.t))
+            import os
+            if os.environ.get('GIVC_EXPLAIN') and r.name in os.environ.get('GIVC_PROBE_OB', r.name):
+                from givc.explain import explain
+                import z3
+                fld, who = os.environ['GIVC_EXPLAIN'].split('@')
+                from givc.vals import Val
+                t = z3.Select(ex.post_state.heap[fld], Val.r(ex.inputs[who].t))
+                print('\n'.join(explain(r.model, t)))
+            if os.environ.get('GIVC_TRACE') and r.name in os.environ.get('GIVC_PROBE_OB', r.name):
+                import z3
+                for (ln, fn, cnd, g) in ex.trace_branches:
+                    if z3.is_true(r.model.eval(g, model_completion=True)):
+                        print('     TRACE %s:%d cond=%s  %s' % (fn.split('.')[-1], ln, r.model.eval(cnd, model_completion=True), str(cnd).replace('\n',' ')[:150]))
+            if os.environ.get('GIVC_CONSTS') and r.name in os.environ.get('GIVC_PROBE_OB', r.name):
+                for d in r.model.decls():
+                    if any(k in d.name() for k in os.environ['GIVC_CONSTS'].split(',')) and d.arity()==0:
+                        print('     CONST', d.name(), '=', r.model[d])
+            if os.environ.get('GIVC_PROBE') and r.name in os.environ.get('GIVC_PROBE_OB', r.name):
+                from givc.engine import State
+                from givc.contracts import parse_expr
+                for pe in os.environ['GIVC_PROBE'].split(';;'):
+                    env = dict(ex.top_env); env['result'] = ex.result
+                    for where, stt in (('post', ex.post_state), ('pre', ex.top_pre)):
+                        try:
+                            s2 = State(dict(env), dict(stt.heap), stt.guard)
+                            fr = ex.spec_frame(c, ex.top_pre); ex.frames.append(fr)
+                            try: v = ex.eval(s2, parse_expr(pe))
+                            finally: ex.frames.pop()
+                            print('     PROBE[%s] %s = %s  (welldef %s)' % (where, pe, b.desc(v.t) if hasattr(v,'t') else v, r.model.eval(s2.guard, model_completion=True)))
+                        except Exception as e: print('     PROBE', pe, 'error', e)
+    vac = solve.vacuity(ex); print(vac)
+    if any(v=='unsat' for k,v in vac):
+        import z3
+        s=z3.Solver(); s.set(unsat_core=True)
+        for i,a in enumerate(ex.assumes): s.assert_and_track(a, 'a%d'%i)
+        s.assert_and_track(ex.normal_guard,'normal')
+        print(s.check())
+        core=s.unsat_core(); print(core)
+        for x in core:
+            n=str(x)
+            if n.startswith('a'): print(n, str(ex.assumes[int(n[1:])])[:600])
     print('inlined:', sorted(ex.used_inline)); print('contracts:', sorted(ex.used_contracts)); print('trusted:', sorted(ex.trusted))
 main()
